@@ -827,7 +827,10 @@ unsafe fn run_case_inner(case: &Case, st: &mut Stats) -> CaseResult {
         free_bdd_manager(m2);
         // sdd
         let mut vt = case.vt.clone();
-        vt.k = nn as u8;
+        // the vtree may have up to two leaves more than the CNF has variables (weighted variables no diagram tests)
+        let wbits = crate::engine::splitmix(case.vt.keys.iter().fold(0x18u64, |a, k| a.wrapping_mul(31).wrapping_add(*k as u64)));
+        let nleaves = (nn + (wbits % 3) as usize).min(8);
+        vt.k = nleaves as u8;
         vt.stride = 1;
         vt.offset = 0;
         let sb = sdd_builder_new(Box::into_raw(Box::new(vt.to_vtree())));
@@ -844,14 +847,38 @@ unsafe fn run_case_inner(case: &Case, st: &mut Stats) -> CaseResult {
         );
         let w = new_wmc_params_f64();
         let mut nat = WmcParams::<RealSemiring>::default();
-        for v in 0..nn {
-            let k = ((v * 3 + 1) % 9) as f64 / 8.0;
-            wmc_param_f64_set_weight(w, v as u64, 1.0 - k, k);
-            nat.set_weight(VarLabel::new_usize(v), RealSemiring(1.0 - k), RealSemiring(k));
+        // three weight tables in turn on the same parameter object: arbitrary small pairs (the wrapper must return
+        // the native unsmoothed count whatever the pairs sum to), some entries overwritten, then normalised pairs
+        // (which the d-DNNF part below uses as well)
+        for round in 0..3u64 {
+            for v in 0..nleaves {
+                let x = crate::engine::splitmix(wbits ^ (round << 32) ^ v as u64);
+                let (lo, hi) = match round {
+                    0 => ([0.0, 0.5, 1.0, 2.0, 3.0][(x % 5) as usize], [0.0, 0.5, 1.0, 2.0, 3.0][((x >> 8) % 5) as usize]),
+                    1 if x & 1 == 0 => continue,
+                    1 => ([0.25, 1.0, 1.5][(x >> 4) as usize % 3], [0.75, 2.0, 0.5][(x >> 12) as usize % 3]),
+                    _ => {
+                        let k = ((v * 3 + 1) % 9) as f64 / 8.0;
+                        (1.0 - k, k)
+                    }
+                };
+                wmc_param_f64_set_weight(w, v as u64, lo, hi);
+                nat.set_weight(VarLabel::new_usize(v), RealSemiring(lo), RealSemiring(hi));
+            }
+            let cw = sdd_wmc(sr, w);
+            let nw = nsr.unsmoothed_wmc(&nat).0;
+            ensure!(
+                cw == nw,
+                "C18/sdd-wmc",
+                "sdd_wmc = {}, native unsmoothed count = {} (weight table #{}, vtree with {} leaves for a CNF over {} variables)",
+                cw,
+                nw,
+                round,
+                nleaves,
+                nn
+            );
         }
-        let cw = sdd_wmc(sr, w);
-        let nw = nsr.unsmoothed_wmc(&nat).0;
-        ensure!(cw == nw, "C18/sdd-wmc", "sdd_wmc = {}, native = {}", cw, nw);
+        st.flag("oneshot.vtree_wider_than_cnf", nleaves > nn);
         // ddnnf
         let db = ddnnf_builder_new(var_order_linear(nn) as *mut VarOrder);
         let dr = ddnnf_builder_compile_cnf_topdown(db, ccnf);
